@@ -438,10 +438,20 @@ def check_purity(ctx, prog):
            "object it was given (which is start's private copy)", not effects and not stores and not unknown,
            {"effects": [(e[0], site_of(e[1], e[2])) for e in effects + stores + unknown][:5]}, nontrivial=True)
     sysc = set()
-    for Fn in (prog.fn("parse_options"), prog.fn("parse_redirect"), prog.fn("redirect_is_set"), prog.fn("parse_stop_actions")):
-        for n in Fn.walk():
-            if n["k"] == "CallExpr" and n.get("callee") and n["callee"] not in prog.funcs:
-                sysc.add(n["callee"])
+    # the validator = parse_options and everything of the library it reaches (whatever the helpers are called)
+    todo, reach = ["parse_options"], set()
+    while todo:
+        nm = todo.pop()
+        if nm in reach or nm not in prog.funcs:
+            continue
+        reach.add(nm)
+        for n in prog.funcs[nm].walk():
+            if n["k"] == "CallExpr" and n.get("callee"):
+                if n["callee"] in prog.funcs:
+                    todo.append(n["callee"])
+                else:
+                    sysc.add(n["callee"])
+    prog.fn("parse_options")
     ctx.ob("C13.A1p", "validator call graph", "the validator functions call nothing outside the library", not sysc, {"external_calls": sorted(sysc)})
 
 
